@@ -26,6 +26,7 @@ from collections import Counter
 
 ROOT = os.path.dirname(os.path.dirname(os.path.abspath(__file__)))
 REPO = os.environ.get('VERIF_REPO', '/repo')
+OUT = os.environ.get('VERIF_OUT', ROOT)   # evidence/ and replays/ go here (self-tests redirect it)
 MAX_SAMPLES = 12
 SHRINK_BUDGET = int(os.environ.get('VERIF_SHRINK_BUDGET', '150'))
 
@@ -170,12 +171,12 @@ def shrink(mod, fingerprint, case):
 
 
 def write_replay(pid, fingerprint, case, detail):
-    d = os.path.join(ROOT, 'replays', pid)
+    d = os.path.join(OUT, 'replays', pid)
     os.makedirs(d, exist_ok=True)
     path = os.path.join(d, digest(fingerprint) + '.json')
     with open(path, 'w') as f:
         json.dump(dict(property=pid, fingerprint=fingerprint, detail=detail, case=case), f, indent=1, default=str)
-    return os.path.relpath(path, ROOT)
+    return os.path.relpath(path, ROOT) if OUT == ROOT else path
 
 
 def regress_cases(pid):
@@ -197,7 +198,7 @@ def run(pid, tier, seed):
     total = Acc()
     errors = []
     import shutil
-    shutil.rmtree(os.path.join(ROOT, 'replays', pid), ignore_errors=True)
+    shutil.rmtree(os.path.join(OUT, 'replays', pid), ignore_errors=True)
 
     # replay tier: every saved minimal input of earlier findings
     nreg = 0
@@ -280,8 +281,8 @@ def run(pid, tier, seed):
     ev = dict(
         property_id=pid, tier=tier, seed=seed, level=mod.LEVEL, coverage=cov,
         assumptions=list(mod.ASSUMPTIONS), wall_s=round(wall, 2), violations=len(violations))
-    os.makedirs(os.path.join(ROOT, 'evidence'), exist_ok=True)
-    with open(os.path.join(ROOT, 'evidence', f'{pid}.json'), 'w') as f:
+    os.makedirs(os.path.join(OUT, 'evidence'), exist_ok=True)
+    with open(os.path.join(OUT, 'evidence', f'{pid}.json'), 'w') as f:
         json.dump(ev, f, indent=1, default=str)
     print(f'{pid} {tier} seed={seed}: {total.evaluations} evaluations, '
           f'{len(total.nontrivial)} distinct non-trivial, {total.inconclusive} inconclusive, '
